@@ -20,6 +20,24 @@ CHECKS["C09"] = dict(level="exploration", ref="DESIGN.md §4 C09",
     note="Trusted: descriptor-level capture in the interposed libc file calls; reference execution is the same library (a defect affecting both equally is invisible). Known findings KF1-KF3 are reported as KNOWN-FINDING, any other violation fails the check.",
     technique="deterministic simulation: seeded sink-configuration histories over a simulated file layer with injected sink faults; replica agreement + reference execution")
 
+CHECKS["C06"] = dict(level="exploration", ref="DESIGN.md §4 C06",
+    text="Seeded search over thread schedules: 2-4 real client threads under the seeded baton scheduler (TSan build, switch points at API "
+         "boundaries, mutex lock/unlock, clock(), C allocations, file calls) each running create/load/run/read/destroy lifecycles from every engine "
+         "area on their own instances. Oracles: ThreadSanitizer silent, no deadlock, progress within a step budget, ids unique and never reused, dead "
+         "ids answer the documented values, every client's observations equal the same program run alone (isolation), and equal again in a second "
+         "process with ASLR off, padded environment and shifted heap (bitwise repeatability).",
+    note="Trusted: clang 14 ThreadSanitizer (instrumented code only), the scheduler's invisibility to TSan (relaxed atomics + futex in an uninstrumented TU), frozen per-client simulated clock. Sampling of schedules, not enumeration.",
+    technique="deterministic simulation: seeded thread scheduler over real pthreads with TSan, solo-run reference execution, cross-process repeatability")
+
+CHECKS["C07"] = dict(level="fault_enumeration", ref="DESIGN.md §4 C07",
+    text="Seeded search over call histories that end in an injected crash point: 0-3 successful segments (databases, setters, inputs that flip sticky "
+         "state) then at most one failing call — the library's own stop exception raised at the k-th message of a class, the k-th C allocation returning "
+         "NULL, a genuine input error, EIO/EOF inside RunFile, or a failed database load — with k spread over the whole call (measured per history), "
+         "then LoadDatabase(String), a getter sweep and 1-3 probes. Oracle: everything observable after the load, including the file layer's record of "
+         "opened paths, modes and byte counts, equals a fresh instance given the same setters, load and probes; ASan/UBSan silent.",
+    note="Trusted: reference execution is the same library on a fresh instance; ids in default names masked; names given by -file in input count as user-set names (allowed to survive). Fault positions are sampled (log-uniform fraction of the call), not enumerated exhaustively in the quick tier.",
+    technique="deterministic simulation: seeded histories with injected crash points (abort at k-th message, k-th allocation NULL, read EIO, failed load) vs fresh-instance reference execution")
+
 NA = {
     "C01": "pure function of (input, database): deciding it needs an independent thermodynamic evaluator, no schedule, clock, fault or call history takes part",
     "C03": "pure function of the input assemblage; the only fault-like path (solver retry ladder) is exercised under C02",
@@ -32,7 +50,7 @@ NA = {
     "C19": "pure function of the gas-phase input",
     "C20": "pure function of the surface input",
 }
-PENDING = {k: "claimed in DESIGN.md; its check is still under construction in this build phase and is not registered yet" for k in ("C02","C04","C05","C06","C07","C08","C10","C14")}
+PENDING = {k: "claimed in DESIGN.md; its check is still under construction in this build phase and is not registered yet" for k in ("C02","C04","C05","C08","C10","C14")}
 
 
 def main():
@@ -73,5 +91,6 @@ def main():
 
 
 HOOK_COMMITS = ["f732ec2d"]
+FIX_COMMITS = ["534640d9", "56cd6cbd", "16e4b988", "75d6d0dd", "8109e7ed", "63c515ea", "d473780a"]
 if __name__ == "__main__":
     main()
